@@ -383,7 +383,7 @@ fn main() {
     for _ in 0..n {
         shape_case(&mut ctx);
     }
-    let n = ctx.n(160, 8000);
+    let n = ctx.n(128, 8000);
     for _ in 0..n {
         curve_case(&mut ctx);
     }
